@@ -152,7 +152,122 @@ async def history(in_protocol=True):
     return bad
 
 
+class _Host(LocalConnector):
+    def __init__(self, name, workdir, cores):
+        super().__init__(name, workdir)
+        self.cores = cores
+
+    async def get_available_locations(self, service=None):
+        return {"host": AvailableLocation(name="host", deployment=self.deployment_name, service=service, hostname="localhost", local=True,
+                                          hardware=Hardware(cores=self.cores, memory=10 ** 6, storage={os.sep: Storage(os.sep, 10 ** 7)}))}
+
+
+def _stacked_class():
+    from streamflow.deployment.wrapper import ConnectorWrapper
+
+    class _Stacked(ConnectorWrapper):
+        def __init__(self, name, workdir, connector, loc_name, cores):
+            super().__init__(name, workdir, connector, None, 2 ** 16)
+            self.loc_name, self.cores = loc_name, cores
+
+        async def deploy(self, external):
+            pass
+
+        async def undeploy(self, external):
+            pass
+
+        @classmethod
+        def get_schema(cls):
+            return "{}"
+
+        async def get_available_locations(self, service=None):
+            inner = next(iter((await self.connector.get_available_locations()).values()))
+            return {self.loc_name: AvailableLocation(name=self.loc_name, deployment=self.deployment_name, service=service, hostname="localhost", local=True,
+                                                     hardware=Hardware(cores=self.cores, memory=10 ** 6, storage={os.sep: Storage(os.sep, 10 ** 7)}),
+                                                     stacked=True, wraps=inner)}
+
+    return _Stacked
+
+
+async def stacked_history():
+    """C10 on stacked locations: one host under two stacks of 1..3 levels; the reservation on EVERY level (the shared host
+    included) never exceeds that level's capacity"""
+    workdir = tempfile.mkdtemp(prefix="c10s.")
+    ctx = build_context({"database": {"type": "default", "config": {"connection": ":memory:"}}, "path": workdir})
+    Stacked = _stacked_class()
+    bad = None
+    try:
+        host_cap = float(rng.choice([1, 2, 3]))
+        host = _Host("host-dep", workdir, host_cap)
+        deployments = {"host-dep": host}
+        caps = {"host": host_cap}
+        targets = []
+        for s in ("a", "b"):
+            conn = host
+            for lvl in range(rng.randint(1, 3)):
+                cap = float(rng.choice([2, 3, 4]))
+                conn = Stacked(f"l{lvl}-{s}", workdir, conn, f"l{lvl}-{s}-loc", cap)
+                deployments[conn.deployment_name] = conn
+                caps[f"l{lvl}-{s}-loc"] = cap
+            targets.append(Target(deployment=DeploymentConfig(name=conn.deployment_name, type="stacked", config={}), workdir=workdir))
+        ctx.deployment_manager.deployments_map.update(deployments)
+        sched = ctx.scheduler
+        req = CWLHardwareRequirement(cwl_version="v1.2", cores=1, memory=10, tmpdir=0, outdir=0)
+        jobs, pending = {}, {}
+        for step in range(rng.randint(4, 12)):
+            if rng.random() < 0.55 and len(jobs) < 7:
+                name = f"/step/0.{len(jobs)}"
+                job = Job(name=name, workflow_id=0, inputs={}, input_directory=workdir, output_directory=workdir, tmp_directory=workdir)
+                jobs[name] = Status.WAITING
+                pending[name] = asyncio.create_task(sched.schedule(job, BindingConfig(targets=[rng.choice(targets)]), req))
+            else:
+                live = [n for n, st in jobs.items() if n not in pending and st in (Status.FIREABLE, Status.RUNNING)]
+                if live:
+                    n = rng.choice(live)
+                    new = Status.RUNNING if jobs[n] == Status.FIREABLE else Status.COMPLETED
+                    await sched.notify_status(n, new)
+                    jobs[n] = new
+            for _ in range(50):
+                await asyncio.sleep(0)
+            for n, t in list(pending.items()):
+                if t.done() or (n in sched.job_allocations and sched.job_allocations[n].status == Status.FIREABLE):
+                    await asyncio.wait_for(t, 10)
+                    jobs[n] = Status.FIREABLE
+                    del pending[n]
+            # cores in use per level, from the allocations themselves
+            used = {}
+            for n, alloc in sched.job_allocations.items():
+                if alloc.status in (Status.FIREABLE, Status.RUNNING):
+                    for loc in alloc.locations:
+                        l = loc
+                        while l is not None:
+                            used[l.name] = used.get(l.name, 0.0) + 1.0
+                            l = l.wraps
+            for lname, u in used.items():
+                if u > caps[lname] + 1e-9:
+                    bad = {"failure": "C10: the jobs allocated on a (stacked) location need more cores than it has", "location": lname, "cores_needed": u,
+                           "capacity": caps[lname], "stacks": sorted(caps)}
+                    break
+            if bad:
+                break
+        for t in pending.values():
+            t.cancel()
+    except Exception as e:
+        bad = {"failure": f"exception {type(e).__name__}: {e}"}
+    finally:
+        try:
+            await ctx.close()
+        except Exception:
+            pass
+        shutil.rmtree(workdir, ignore_errors=True)
+    return bad
+
+
 async def search(n):
+    for _ in range(max(4, n // 2)):
+        bad = await stacked_history()
+        if bad:
+            return bad
     for _ in range(n):
         bad = await history(in_protocol=True)
         if bad:
